@@ -5,7 +5,8 @@ import re
 
 from mirlib import *
 from cache_rules import strip_casts, const_val, slice_of
-from facts import VERIF
+from facts import VERIF, Unusable
+from bytesview import byteview, const_eval, table_instances
 
 SPEC = json.load(open(os.path.join(VERIF, "spec", "layouts.json")))
 
@@ -16,9 +17,9 @@ def _int_ty(callee):
 
 
 def _range_consts(t):
-    sl = slice_of(t)
-    if sl and sl[1] == "range":
-        return const_val(sl[2]), const_val(sl[3]), strip(sl[0])
+    bv = byteview(t)
+    if bv and bv[2] is not None and (bv[1], bv[2]) != (0, None) and slice_of(strip_casts(t) if strip_casts(t)[0] != "cast" else t) is not None:
+        return bv[1], bv[2], strip(bv[0])
     return None
 
 
@@ -35,7 +36,7 @@ def reader_fields(fn, buf_bias=0):
             for name, op in zip(rv["kind"]["fields"], rv["ops"]):
                 t = R.operand(op)
                 info = _decode_read(t)
-                if info:
+                if info and info[0] is not None and info[1] is not None:
                     lo, hi, ty, adj = info
                     out[name] = (lo + buf_bias, hi + buf_bias, ty, adj)
     return out
@@ -65,8 +66,10 @@ def _decode_read(t):
             return r[0], r[1], _int_ty(x[1]), adj
         # from_le_bytes of a whole small array (get_u64 style)
         return None
-    if x[0] == "index" and const_val(x[2]) is not None:
-        return const_val(x[2]), const_val(x[2]) + 1, "u8", adj
+    if x[0] == "index" and const_eval(x[2]) is not None:
+        bv = byteview(x[1])
+        off = (bv[1] if bv else 0) + const_eval(x[2])
+        return off, off + 1, "u8", adj
     r = _range_consts(x)
     if r and r[0] is not None:
         return r[0], r[1], "bytes", adj
@@ -83,17 +86,41 @@ def writer_fields_buffer(fn):
                 continue
             last = place["proj"][-1]
             if last["k"] in ("index", "cidx"):
-                idx = const_val(R.local(last["local"])) if last["k"] == "index" else last["off"]
+                idx = const_eval(R.local(last["local"])) if last["k"] == "index" else last["off"]
                 v = strip(R.rvalue(payload))
                 name, adj = _source_name(v)
                 if idx is not None:
                     out[name] = (idx, idx + 1, "u8", adj)
     for bi, t in fn.calls(lambda c, t: c.endswith("copy_from_slice")):
-        dst = _range_consts(R.operand(t["args"][0]))
-        src = strip_casts(R.operand(t["args"][1]))
-        if dst and dst[0] is not None and src[0] == "call" and src[1].endswith("to_le_bytes"):
-            name, adj = _source_name(strip(src[2][0]))
-            out[name] = (dst[0], dst[1], _int_ty(src[1]), adj)
+        for dtree, stree in table_instances([R.operand(t["args"][0]), R.operand(t["args"][1])]):
+            dst = _range_consts(dtree)
+            src = strip_casts(stree)
+            if dst is None or dst[0] is None:
+                raise Unusable("layout: %s writes header bytes at a position that is not a compile-time constant; the layout table cannot be extracted" % short(fn.path))
+            if src[0] == "call" and src[1].endswith("to_le_bytes"):
+                name, adj = _source_name(strip(src[2][0]))
+                out[name] = (dst[0], dst[1], _int_ty(src[1]), adj)
+    # the whole header as one array literal: [ID, flags, len[0], len[1], ...]
+    for bi in fn.cfg():
+        for st in fn.blocks[bi]["stmts"]:
+            rv = st["rv"]
+            if rv["k"] == "aggregate" and rv["kind"].get("agg") == "array" and len(rv["ops"]) >= 2 and "u8" in str(rv["kind"].get("ty", "u8")):
+                k = 0
+                ops = [strip(R.operand(o)) for o in rv["ops"]]
+                while k < len(ops):
+                    x = ops[k]
+                    if x[0] == "index" and strip_casts(x[1])[0] == "call" and strip_casts(x[1])[1].endswith("to_le_bytes") and const_eval(x[2]) == 0:
+                        src = strip_casts(x[1])
+                        n = 1
+                        while k + n < len(ops) and ops[k + n][0] == "index" and strip_casts(ops[k + n][1]) == src and const_eval(ops[k + n][2]) == n:
+                            n += 1
+                        name, adj = _source_name(strip(src[2][0]))
+                        out[name] = (k, k + n, _int_ty(src[1]), adj)
+                        k += n
+                        continue
+                    name, adj = _source_name(x)
+                    out[name] = (k, k + 1, "u8", adj)
+                    k += 1
     return out
 
 
@@ -123,18 +150,21 @@ def writer_fields_sequence(fn):
     """writers that emit write_all(x.to_le_bytes()) one after the other (Header::write): ordered by dominance."""
     R = Resolver(fn)
     calls = []
+    order = 0
     for bi, t in fn.calls(lambda c, t: c.endswith("Write::write_all")):
-        d = strip_casts(R.operand(t["args"][1]))
-        if d[0] == "call" and d[1].endswith("to_le_bytes"):
-            calls.append((bi, self_field(strip(d[2][0])), _int_ty(d[1])))
-        else:
-            sf = self_field(d)
-            calls.append((bi, sf, "bytes"))
-    calls.sort(key=lambda c: sum(1 for o in calls if fn.dominates(o[0], c[0])))
+        for (dtree,) in table_instances([R.operand(t["args"][1])]):
+            d = strip_casts(dtree)
+            order += 1
+            if d[0] == "call" and d[1].endswith("to_le_bytes"):
+                calls.append((bi, self_field(strip(d[2][0])), _int_ty(d[1]), order))
+            else:
+                sf = self_field(d)
+                calls.append((bi, sf, "bytes", order))
+    calls.sort(key=lambda c: (sum(1 for o in calls if o[0] != c[0] and fn.dominates(o[0], c[0])), c[3]))
     out = {}
     off = 0
     sizes = {"u8": 1, "u16": 2, "u32": 4, "u64": 8}
-    for bi, name, ty in calls:
+    for bi, name, ty, _order in calls:
         size = sizes.get(ty)
         if size is None:
             # byte array field: take its length from the ADT type
@@ -232,7 +262,7 @@ def layouts(ctx, prog, rule):
     idb = [k for k, v in w.items() if v[0] == 0]
     ctx.ob(rule, "layout/data_packet_header/id", idb == ["const:1"], "byte 0 of a data packet is %s (spec id 1)" % idb)
     flags = [k for k, v in w.items() if v[0] == 1]
-    ctx.ob(rule, "layout/data_packet_header/flags", len(flags) == 1 and flags[0].startswith("flags("), "byte 1 of a data packet is %s" % flags, nontrivial=False)
+    ctx.ob(rule, "layout/data_packet_header/flags", len(flags) == 1 and (flags[0].startswith("flags(") or flags[0] == "comp_restart_flag"), "byte 1 of a data packet is %s" % flags, nontrivial=False)
     ctx.floor(rule, "binary structures compared", n_struct, 6)
     ctx.floor(rule, "binary fields compared", n_fields, 16)
 
@@ -284,20 +314,22 @@ def dispatch_table(ctx, prog, rule):
     R = Resolver(f)
     table = {}
     for bi in f.cfg():
-        t = f.blocks[bi]["term"]
-        if t["k"] != "switch":
+        te = int_test_edges(f, R, bi)
+        if te is None:
             continue
-        dl = op_place(t["discr"])
-        d = strip(R.place(dl)) if dl else None
-        if d and d[0] == "binop" and d[1] == "Eq" and strip(d[2])[0] == "index" and const_val(d[3]) is not None:
-            e = switch_edges(f, bi)
-            tr = e["otherwise"]
-            # first local call in the true arm
-            b = tr
-            for _ in range(3):
+        val, cases, others = te
+        v = strip(val)
+        while v[0] == "cast":
+            v = strip(v[2])
+        if v[0] != "index" or const_eval(v[2]) != 0:
+            continue
+        for k, succ in cases.items():
+            # first local call on the arm taken for this id
+            b = succ
+            for _ in range(4):
                 tt = f.blocks[b]["term"]
                 if tt["k"] == "call":
-                    table[const_val(d[3])] = short(callee_of(tt))
+                    table[k] = short(callee_of(tt))
                     break
                 if tt["k"] == "goto":
                     b = tt["target"]
@@ -313,6 +345,14 @@ def dispatch_table(ctx, prog, rule):
             if rv["k"] == "aggregate" and rv["kind"].get("adt") == "packet::PacketHeader":
                 v = strip(R.operand(rv["ops"][0]))
                 cons[rv["kind"]["variant"]] = short(v[1]) if v[0] == "call" else tree_str(v)
+    # the variant constructors used as functions (`.map(PacketHeader::Index)`)
+    for bi, t in f.calls(lambda c, t: c.startswith("packet::PacketHeader::") and c.rsplit("::", 1)[-1] in ("Index", "Data", "Ignored")):
+        v = strip(R.operand(t["args"][0]))
+        cons[callee_of(t).rsplit("::", 1)[-1]] = short(v[1]) if v[0] == "call" else tree_str(v)
+    for bi in ():
+        for st in ():
+            if False:
+                pass
     wantc = {"Index": "IndexPacketHeader::read", "Data": "DataPacketHeader::read", "Ignored": "IgnoredPacketHeader::read"}
     ctx.ob(rule, "dispatch/variants", cons == wantc, "variant <- header reader: %s" % cons)
     # unknown ids are an error: the final else arm is always-Err
